@@ -567,6 +567,17 @@ def run_check(plugin_mod, tier, replay=None):
     for k in open_findings:
         if k['id'] in known_hits:
             print('KNOWN-FINDING: property=%s %s [%s; %d case(s) this run]' % (prop, k['what'], k['id'], len(known_hits[k['id']])))
+        elif k.get('witness_script'):
+            # a finding the generated cases do not reach: its standalone witness (exit 1 = the defect shows, 0 = it does not)
+            # is run against the tree under test
+            try:
+                r = subprocess.run(['/venv/bin/python', os.path.join(ROOT, k['witness_script'])], env=impl_env(), cwd=ROOT,
+                                   stdout=subprocess.PIPE, stderr=subprocess.STDOUT, text=True, timeout=120)
+                rc = r.returncode
+            except subprocess.TimeoutExpired:
+                rc = 1
+            if rc == 1:
+                print('KNOWN-FINDING: property=%s %s [%s; standalone witness %s reproduces]' % (prop, k['what'], k['id'], k['witness_script']))
     print('%s tier=%s seed=%d cases=%d nontrivial=%d obligations=%d/%d disagreements=%d oracle_failures=%d wall=%.1fs' % (
         prop, tier, seed, len(live), nontrivial, info['discharged'], info['obligations'], len(disagreements),
         len(failures), time.time() - t0))
